@@ -413,7 +413,8 @@ impl<'a> Parser<'a> {
 
     fn expression(&mut self) {
         let precedence = if self.single_target_mode {
-            Precedence::BitwiseOr
+            // Nested in the operand of a compound assignment: any operator, but no assignment.
+            Precedence::Or
         } else {
             Precedence::Assignment
         };
@@ -1426,7 +1427,7 @@ impl<'a> Parser<'a> {
         self.single_target_mode = true;
         let op_kind = self.previous.kind;
         self.emit_variable_op(get_op, variable);
-        self.expression();
+        self.parse_precedence(Precedence::BitwiseOr);
         match op_kind {
             TokenKind::MinusEqual => self.emit_byte(OpCode::Subtract as u8),
             TokenKind::PlusEqual => self.emit_byte(OpCode::Add as u8),
@@ -1616,7 +1617,10 @@ impl<'a> Parser<'a> {
         }
 
         if s.match_token(TokenKind::LeftBrace) {
+            // The statements of the body are not part of an enclosing compound assignment.
+            let single_target_mode = mem::replace(&mut s.single_target_mode, false);
             s.block();
+            s.single_target_mode = single_target_mode;
         } else {
             s.expression();
             s.emit_byte(OpCode::Return as u8);
